@@ -6,82 +6,60 @@
    descriptors.  Heap reachability, HDF5 identifier lifetime and everything inside libhdf5 are runtime facts: they are
    TESTED by checks/C17.py (descriptor counts per operation, H5Fget_obj_count, LeakSanitizer, heap slope over cycles).
 
-   Variant Old is the code as it is; Cur / MCur are the repairs proposed in notes/C17.md. *)
+   Variants.  Cur / MCur = the transcription of /repo AS IT IS NOW (ADFI_close_file since 909ac4d, cg_open since def473d);
+   this is the variant checks/C17.py runs against the library after every operation.  Old / MOld = the transcription of
+   the code BEFORE those commits; the theorems named ..._old_refuted are about that old transcription only and record,
+   machine-checked, the defects the commits repaired (their witnesses are regression inputs in corpus/C17/). *)
 From Coq Require Import Arith List Bool Lia.
 From CgnsV Require Import Refcount RefcountProofs.
 Import ListNotations.
 
-(* ---- the full-strength statement is [refcount_balanced] of Refcount.v: for ANY session of opens, link traversals and
+(* ================================================================================ the current code (Cur / MCur) *)
+(* The full-strength statement is [refcount_balanced v] of Refcount.v: for ANY session of opens, link traversals and
    closes (valid or not, in any order, any link graph) after which the user has called close for every handle an open
-   returned: every in_use is 0, the ledger of descriptors is empty, the cgio table is released.
+   returned: every in_use is 0, the ledger of descriptors is empty, the cgio table is released. *)
 
-   It is FALSE of the code as it is.  Witness: B = F1; A = F0 links to B; C = F2 links to A; A opened once, C twice, both C
-   handles read through A, the first one on to B; close C#1 (closes B under A's feet), close A (reports
-   ADF_FILE_NOT_OPENED after having dropped A's reference, so cgio keeps the slot), close C#2.  Every handle has been
-   closed by its user; one cgio slot stays allocated for ever. *)
-Theorem C17_refcount_refuted : ~ refcount_balanced Old.
-Proof. exact refcount_balanced_refuted. Qed.
-Print Assumptions C17_refcount_refuted.
-
-Theorem C17_refcount_refuted_witness :
-  exists s rs, run Old 1000 w1 io_init [] ops1 = Some (s, [], rs) /\
-               nth 5 rs (ResWalk false) = ResClose ROk /\
-               nth 6 rs (ResWalk false) = ResClose (RAdf ADF_FILE_NOT_OPENED) /\
-               nopen s = 1 /\ iol s <> [] /\ ~ clean s.
-Proof. exact refuted_shared_link. Qed.
-Print Assumptions C17_refcount_refuted_witness.
-
-(* the premature close itself: A (slot 0) in use and listing slot 2 in links[], slot 2 (B) already closed *)
-Theorem C17_premature_close_refuted :
-  exists s rs, run Old 1000 w1 io_init [] [OOpen 0 false; OOpen 2 false; OWalk 2 [0; 1]; OClose 2] = Some (s, [1], rs) /\
-               in_use (slot_at (io_adf s) 0) = 1 /\ links (slot_at (io_adf s) 0) = [2] /\
-               in_use (slot_at (io_adf s) 2) = 0 /\ ledger (io_adf s) = [0].
-Proof. exact refuted_premature_close. Qed.
-Print Assumptions C17_premature_close_refuted.
-
-(* two files linking to each other: ADFI_close_file does not return, for EVERY amount of fuel (the C: stack overflow) *)
-Theorem C17_close_cycle_refuted : forall fuel, run Old fuel w2 io_init [] ops2 = None.
-Proof. exact refuted_cycle. Qed.
-Print Assumptions C17_close_cycle_refuted.
-
-(* ---- the repaired ADFI_close_file (links[] closed only when the file's own count reaches 0) -------------------- *)
-(* ANY session, any link graph without a cycle between files, any fuel: if every handle has been closed, nothing is
-   held: all in_use = 0, ledger empty, cgio table released *)
-Theorem C17_refcount_balanced_fixed : forall w rank fuel ops s rs,
+(* ANY session, any link graph WITHOUT A CYCLE BETWEEN FILES, any fuel: if every handle has been closed, nothing is held *)
+Theorem C17_refcount_balanced : forall w rank fuel ops s rs,
   acyclic w rank -> run Cur fuel w io_init [] ops = Some (s, [], rs) -> clean s.
 Proof. exact balanced_fixed. Qed.
-Print Assumptions C17_refcount_balanced_fixed.
+Print Assumptions C17_refcount_balanced.
 
-(* ANY link graph (cycles included): from a state satisfying the reference-count invariant, ADFI_close_file drops
-   exactly the caller's reference, reports NO_ERROR, and re-establishes the invariant *)
-Theorem C17_close_drops_one_reference_fixed : forall w U fuel a i a' e,
-  Inv w a (i :: U) [] -> adfi_close_file Cur fuel a i = Some (a', e) -> e = 0 /\ Inv w a' U [].
-Proof. exact close_machine_ok. Qed.
-Print Assumptions C17_close_drops_one_reference_fixed.
+(* without the acyclicity hypothesis the statement is FALSE of the current code too (known finding
+   fd:adf-link-cycle-keeps-files-open): two files that link to each other keep each other open -- a leak, where the
+   old code overflowed the stack *)
+Theorem C17_refcount_balanced_cyclic_refuted : ~ refcount_balanced Cur.
+Proof. exact refcount_balanced_cur_refuted. Qed.
+Print Assumptions C17_refcount_balanced_cyclic_refuted.
 
-(* ... and it TERMINATES, for any link graph, within 3 * (link entries of the files in use) + 3 steps of its call stack
-   (the code as it is does not: C17_close_cycle_refuted) *)
-Theorem C17_close_terminates_fixed : forall w U fuel a i,
-  Inv w a (i :: U) [] -> 3 * tlinks a + 3 <= fuel ->
-  exists a', adfi_close_file Cur fuel a i = Some (a', 0) /\ Inv w a' U [].
-Proof. exact close_machine_total. Qed.
-Print Assumptions C17_close_terminates_fixed.
-
-(* every cgio-level operation preserves the invariant (reference counts = handles + link entries; ledger = files in
-   use; every live cgio slot is a handle the user still has to close) *)
-Theorem C17_session_invariant_fixed : forall w fuel ops s pend s' pend' rs,
-  IOInv w s pend -> run Cur fuel w s pend ops = Some (s', pend', rs) -> IOInv w s' pend'.
-Proof. intros w fuel ops. exact (run_inv w fuel ops). Qed.
-Print Assumptions C17_session_invariant_fixed.
-
-(* what the repair does not cure: a cycle of links keeps both files open (honest limit of reference counting) *)
-Theorem C17_fixed_cycle_leaks :
+Theorem C17_link_cycle_leaks_witness :
   exists s rs, run Cur 1000 w2 io_init [] ops2 = Some (s, [], rs) /\ ledger (io_adf s) = [1; 0] /\
                in_use (slot_at (io_adf s) 0) = 1 /\ in_use (slot_at (io_adf s) 1) = 1 /\ iol s = [].
 Proof. exact fixA_cycle_leaks. Qed.
-Print Assumptions C17_fixed_cycle_leaks.
+Print Assumptions C17_link_cycle_leaks_witness.
 
-(* ---- calls that return an error release what they had acquired (both variants, every state) -------------------- *)
+(* ANY link graph (cycles included): from a state satisfying the reference-count invariant, ADFI_close_file drops
+   exactly the caller's reference, reports NO_ERROR, and re-establishes the invariant ... *)
+Theorem C17_close_drops_one_reference : forall w U fuel a i a' e,
+  Inv w a (i :: U) [] -> adfi_close_file Cur fuel a i = Some (a', e) -> e = 0 /\ Inv w a' U [].
+Proof. exact close_machine_ok. Qed.
+Print Assumptions C17_close_drops_one_reference.
+
+(* ... and it TERMINATES, for any link graph, within 3 * (link entries of the files in use) + 3 steps of its call stack *)
+Theorem C17_close_terminates : forall w U fuel a i,
+  Inv w a (i :: U) [] -> 3 * tlinks a + 3 <= fuel ->
+  exists a', adfi_close_file Cur fuel a i = Some (a', 0) /\ Inv w a' U [].
+Proof. exact close_machine_total. Qed.
+Print Assumptions C17_close_terminates.
+
+(* every cgio-level operation preserves the invariant (reference counts = handles + link entries; ledger = files in
+   use; every live cgio slot is a handle the user still has to close) *)
+Theorem C17_session_invariant : forall w fuel ops s pend s' pend' rs,
+  IOInv w s pend -> run Cur fuel w s pend ops = Some (s', pend', rs) -> IOInv w s' pend'.
+Proof. intros w fuel ops. exact (run_inv w fuel ops). Qed.
+Print Assumptions C17_session_invariant.
+
+(* calls that return an error release what they had acquired (both variants, every state) *)
 Theorem C17_failing_open_releases : forall v fuel w s n rw s',
   cgio_open_file v fuel w s n rw = Some (s', None) -> ledger (io_adf s') = ledger (io_adf s).
 Proof. exact failing_open_ledger. Qed.
@@ -92,27 +70,57 @@ Theorem C17_failing_link_open_releases : forall v fuel w a n a',
 Proof. exact failing_link_open_ledger. Qed.
 Print Assumptions C17_failing_link_open_releases.
 
-(* ---- the MLL table (cg_open / cg_close): [handles_released] of Refcount.v -------------------------------------- *)
-(* FALSE of the code as it is: a cg_open that fails after cgio_open_file succeeded returns without undoing anything *)
-Theorem C17_handles_released_refuted : ~ handles_released MOld.
-Proof. exact handles_released_refuted. Qed.
-Print Assumptions C17_handles_released_refuted.
+(* the MLL table (cg_open / cg_close), [handles_released] of Refcount.v: after any session in which every successfully
+   opened file has been closed the table is released and no cgio handle acquired by cg_open is still held *)
+Theorem C17_handles_released : handles_released MCur.
+Proof. exact handles_released_fixed. Qed.
+Print Assumptions C17_handles_released.
 
-Theorem C17_handles_released_refuted_witness :
+(* ================================================================================ the OLD transcriptions (history) *)
+(* ADFI_close_file before 909ac4d.  Witness: B = F1; A = F0 links to B; C = F2 links to A; A opened once, C twice, both C
+   handles read through A, the first one on to B; close C#1 (closes B under A's feet), close A (reports
+   ADF_FILE_NOT_OPENED after having dropped A's reference, so cgio keeps the slot), close C#2. *)
+Theorem C17_refcount_old_refuted : ~ refcount_balanced Old.
+Proof. exact refcount_balanced_refuted. Qed.
+Print Assumptions C17_refcount_old_refuted.
+
+Theorem C17_refcount_old_refuted_witness :
+  exists s rs, run Old 1000 w1 io_init [] ops1 = Some (s, [], rs) /\
+               nth 5 rs (ResWalk false) = ResClose ROk /\
+               nth 6 rs (ResWalk false) = ResClose (RAdf ADF_FILE_NOT_OPENED) /\
+               nopen s = 1 /\ iol s <> [] /\ ~ clean s.
+Proof. exact refuted_shared_link. Qed.
+Print Assumptions C17_refcount_old_refuted_witness.
+
+(* the premature close itself: A (slot 0) in use and listing slot 2 in links[], slot 2 (B) already closed *)
+Theorem C17_premature_close_old_refuted :
+  exists s rs, run Old 1000 w1 io_init [] [OOpen 0 false; OOpen 2 false; OWalk 2 [0; 1]; OClose 2] = Some (s, [1], rs) /\
+               in_use (slot_at (io_adf s) 0) = 1 /\ links (slot_at (io_adf s) 0) = [2] /\
+               in_use (slot_at (io_adf s) 2) = 0 /\ ledger (io_adf s) = [0].
+Proof. exact refuted_premature_close. Qed.
+Print Assumptions C17_premature_close_old_refuted.
+
+(* two files linking to each other: the old ADFI_close_file did not return, for EVERY amount of fuel (stack overflow) *)
+Theorem C17_close_cycle_old_refuted : forall fuel, run Old fuel w2 io_init [] ops2 = None.
+Proof. exact refuted_cycle. Qed.
+Print Assumptions C17_close_cycle_old_refuted.
+
+(* cg_open before def473d: a failure behind cgio_open_file returned without undoing anything *)
+Theorem C17_handles_released_old_refuted : ~ handles_released MOld.
+Proof. exact handles_released_refuted. Qed.
+Print Assumptions C17_handles_released_old_refuted.
+
+Theorem C17_handles_released_old_refuted_witness :
   exists m, mrun MOld mll_init [] [MOpen OLateFail] = (m, []) /\ n_open m = 1 /\ held m = [0] /\ files m = [Some 0].
 Proof. exact mll_refuted_failed_open. Qed.
-Print Assumptions C17_handles_released_refuted_witness.
+Print Assumptions C17_handles_released_old_refuted_witness.
 
-Theorem C17_handles_released_fixed : handles_released MCur.
-Proof. exact handles_released_fixed. Qed.
-Print Assumptions C17_handles_released_fixed.
-
-(* ---- non-vacuity ------------------------------------------------------------------------------------------------ *)
-(* the witness world W1 is acyclic, and the repaired model closes the witness session cleanly *)
+(* ================================================================================ non-vacuity *)
+(* the witness world W1 is acyclic, and the current model closes the witness session cleanly *)
 Example C17_w1_acyclic : acyclic w1 (fun n => match n with 2 => 2 | 0 => 1 | _ => 0 end).
 Proof. exact w1_acyclic. Qed.
 
-Example C17_fixed_w1_clean : exists s rs, run Cur 1000 w1 io_init [] ops1 = Some (s, [], rs) /\ cleanb s = true /\
+Example C17_w1_clean : exists s rs, run Cur 1000 w1 io_init [] ops1 = Some (s, [], rs) /\ cleanb s = true /\
   forallb (fun r => match r with ResClose ROk | ResOpen (Some _) | ResWalk true => true | _ => false end) rs = true.
 Proof. exact fixA_w1_clean. Qed.
 
@@ -122,7 +130,7 @@ Example C17_invariant_example :
                IOInv w1 s [2; 1] /\ in_use (slot_at (io_adf s) 0) = 2 /\ ledger (io_adf s) = [1; 2; 0].
 Proof. exact invariant_example. Qed.
 
-Example C17_mll_fixed_example :
+Example C17_mll_example :
   exists m, mrun MCur mll_init [] [MOpen OSuccess; MOpen OLateFail; MOpen OSuccess; MClose 1 true; MClose 3 true] = (m, []) /\
             n_open m = 0 /\ held m = [] /\ files m = [] /\ foffset m = 3.
 Proof. exact mll_fixed_example. Qed.
